@@ -949,13 +949,13 @@ def plan_generic(prop, tier, seed):
         if prop == "C09":
             # the SAN writer/reader as the code does it (SanImpl) against the reference reading, on the families
             mc_famimpl(run, tier, seed, ["AMBIG", "PIN", "EPX", "PROMO", "CASTLE", "DBLCHK"], module="MC_SanImpl",
-                       mult=(12, 8), what="Inv_SanRefines (Obl_SanWrite, Obl_SanRoundTrip, Obl_SanRead)",
-                       corpus=(1, 24) if tier == "quick" else (1, 122))
+                       mult=(20, 8), what="Inv_SanRefines (Obl_SanWrite, Obl_SanRoundTrip, Obl_SanRead)",
+                       corpus=(1, 16) if tier == "quick" else (1, 122))
         if prop == "C10":
             # the UCI readers as the code does them (kind guessed from the board, Move::new, validators) on all
             # 20 480 (source, destination, promotion) triples of each position
             mc_famimpl(run, tier, seed, ["EPX", "EPEVADE", "PROMO", "CASTLE", "PIN"], module="MC_SanImpl", cfg="MC_UciImpl.cfg",
-                       mult=(12, 8), what="Inv_UciRefines (Obl_Uci)", corpus=(20, 44) if tier == "quick" else (1, 122))
+                       mult=(30, 8), what="Inv_UciRefines (Obl_Uci)", corpus=(20, 32) if tier == "quick" else (1, 122))
     if prop in ("C13", "C14", "C17"):
         chain_behaviours(run, prop, tier, seed, binary)
         mc_chain(run, tier)
